@@ -4,6 +4,7 @@ import (
 	"bytes"
 	"github.com/xiam/to"
 	"reflect"
+	"strings"
 )
 
 type encoder struct {
@@ -57,7 +58,8 @@ func structPayload(v interface{}) ([]byte, error) {
 
 	for i := 0; i < vType.NumField(); i++ {
 		if tlv8, ok := vType.Field(i).Tag.Lookup("tlv8"); ok {
-			tag := uint8(to.Uint64(tlv8))
+			// the tag is followed by options (`tlv8:"4,optional"`), like in the decoder
+			tag := uint8(to.Uint64(strings.Split(tlv8, ",")[0]))
 			field := vValue.Field(i)
 			switch v := field.Interface().(type) {
 			case uint8:
